@@ -169,6 +169,42 @@ func c05(r *mon.Run) {
 					Expected: fmt.Sprintf("allocation <= %d bytes (size-derived bound)", bound), Observed: fmt.Sprintf("%d bytes allocated", used), Class: "allocation bound"})
 			}
 		}})
+	// equality, containment and merging of values nested 8...400 levels deep (objects, arrays, both alternating),
+	// equal along the whole depth: time proportional to the size of the operands, not exponential in their depth
+	// (the stall alarm is the monitor)
+	dshapes := []string{"objects", "arrays", "alternating", "wide-and-deep"}
+	ddepths := []int{8, 16, 24, 26, 28, 32, 40, 64, 128, 400}
+	dexprs := []string{"@ == @", "a == b", "a != b", "contains([a], b)", "contains([b, a], a)", "[a][?@ == b]", "a == `null` || a == b", "merge(a, b) == a", "[a, b] == [b, a]", "sort_by([{k: 'x', v: a}], &k)[0].v == b", "a == c", "not_null(a) == b"}
+	deepVal := func(shape string, d int, leaf interface{}) interface{} {
+		v := leaf
+		for k := 0; k < d; k++ {
+			switch {
+			case shape == "objects" || (shape == "alternating" && k%2 == 0):
+				v = map[string]interface{}{"n": v}
+			case shape == "wide-and-deep":
+				v = map[string]interface{}{"n": v, "x": float64(k), "y": []interface{}{float64(k), "s"}}
+			default:
+				v = []interface{}{v}
+			}
+		}
+		return v
+	}
+	ws = append(ws, mon.Workload{Name: "deep-equal-operands", N: len(dshapes) * len(ddepths) * len(dexprs), Batch: 4,
+		Describe: func(i int) string {
+			return dexprs[i%len(dexprs)] + " on " + dshapes[i/len(dexprs)/len(ddepths)] + " nested " + strconv.Itoa(ddepths[i/len(dexprs)%len(ddepths)]) + " deep"
+		},
+		Do: func(i int, t *mon.Tally) {
+			shape, d, expr := dshapes[i/len(dexprs)/len(ddepths)], ddepths[i/len(dexprs)%len(ddepths)], dexprs[i%len(dexprs)]
+			doc := map[string]interface{}{"a": deepVal(shape, d, float64(1)), "b": deepVal(shape, d, float64(1)), "c": deepVal(shape, d, float64(2))}
+			t.Eval()
+			for k, o := range []mon.Observed{apiSearch(expr, doc), apiCompiledSearch(expr, doc)} {
+				if o.Panicked {
+					r.Violate(&mon.Violation{Workload: "deep-equal-operands", Index: i, API: []string{"Search", "Compile+Search"}[k], Expr: expr, DocDesc: shape + " nested " + strconv.Itoa(d) + " deep", Expected: "a value or an error", Observed: o.String(), Detail: o.Stack, Class: "deep-equal-operands: panic"})
+					return
+				}
+			}
+			t.Nontrivial("deq:" + strconv.Itoa(i))
+		}})
 	th := r.Tier == "thorough"
 	ws = append(ws, mon.Workload{Name: "sized-arrays", N: sizedCount(th), Batch: 500,
 		Describe: func(i int) string { _, _, d := sizedCase(i, th); return d },
